@@ -19,6 +19,11 @@ CHECKS['C02'] = dict(engine='SYMTOK+CH', category='model_checking', design='4/C0
    text='Bounded symbolic exploration of the real parse loop, the dialect error() callbacks and the un-stubbed ErrorHandling (including its re-parses of suggestions) over all streams of <= K tokens and corpus neighbourhoods: every path ends in a tree or ParsingException. CrossHair units make the token *values* symbolic for the value-dependent grammar actions and the lexer error reporter.',
    note='Trusted: z3, CrossHair, explorer. Token values are representatives in SYMTOK (value-dependent crashes only via the CH units listed in the evidence); RecursionError on deep nesting not modelled; K<=3 quick / 4 thorough.')
 
+CHECKS['C13'] = dict(engine='CH', category='model_checking', design='4/C13',
+   technique='CrossHair symbolic execution of the real query_traversal: per-node-kind induction step with symbolic slot presence, list lengths and replaced index',
+   text='Per node kind (20 walked classes, found/cross-checked by reflection) one solver-checked induction step: a node whose child slots hold fresh markers is walked by the real query_traversal; visits are exactly once per marker/nested query/node, in the order of the node\'s own to_string(), with is_table/is_target exactly on table/select-list slots, and a replacement changes exactly the visited slot. CrossHair confirms each step over all values of the symbolic presence mask, list lengths and replaced index; induction on depth extends it to all trees.',
+   note='Trusted: CrossHair, slot table in harness/c13lib.py (cross-checked by reflection), node to_string() as the definition of textual order. Bounded part: list length <= 2 (quick) / 3 (thorough) per slot, uniform loops. Column-name lists and LIMIT/OFFSET constants are not treated as expression slots.')
+
 NA_PENDING = {}
 
 
